@@ -52,9 +52,10 @@ def parse_output(text):
             else:
                 r['status'] = 'failed'
             cex = re.findall(r'(?:concrete_vals|// (?:\d+|0x)[^\n]*)', body)
-            pb = re.search(r'Concrete playback unit test for[^\n]*\n(.*?)(?:\n\n|\Z)', body, flags=re.S)
+            pb = re.search(r'Concrete playback unit test for[^\n]*\n```\n(.*?)\n```', body, flags=re.S)
             if pb:
-                r['cex'] = pb.group(0)[:3000]
+                r['cex'] = pb.group(1)[:3000]
+                r['cex_vals'] = re.findall(r'vec!\[([0-9, ]*)\],', pb.group(1))
         res[name] = r
     return res
 
@@ -72,22 +73,39 @@ def run_harnesses(harnesses, timeout=1500):
         env = dict(os.environ)
         env['CARGO_NET_OFFLINE'] = 'true'
         env.pop('RUSTUP_TOOLCHAIN', None)
-        cmd = ['cargo', 'kani', '--lib', '-Z', 'function-contracts', '-Z', 'stubbing', '-Z', 'concrete-playback',
-               '--concrete-playback=print', '-j', '6', '--output-format', 'regular']
+        base = ['cargo', 'kani', '--lib', '-Z', 'function-contracts', '-Z', 'stubbing']
+        cmd = base + ['-j', '6', '--output-format', 'terse']
         for h in harnesses:
             cmd += ['--harness', h['name']]
         out['cmd'] = 'cd <scratch copy of /repo + /verif/kani/*.rs> && ' + ' '.join(cmd)
         log = os.path.join(scratch.ROOT, 'kani.log')
-        with open(log, 'w') as lf:
-            try:
-                p = subprocess.run(cmd, cwd=dst, env=env, stdout=lf, stderr=subprocess.STDOUT, timeout=timeout)
-                rc = p.returncode
-            except subprocess.TimeoutExpired:
-                rc = -9
-                subprocess.run("ps -eo pid,comm | awk '$2==\"cbmc\"{print $1}' | xargs -r kill -9", shell=True)
-        with open(log, errors='replace') as lf:
-            text = lf.read()
-    res = parse_output(text)
+
+        def run(cmd, log, timeout):
+            with open(log, 'w') as lf:
+                try:
+                    p = subprocess.run(cmd, cwd=dst, env=env, stdout=lf, stderr=subprocess.STDOUT, timeout=timeout)
+                    rc = p.returncode
+                except subprocess.TimeoutExpired:
+                    rc = -9
+                    subprocess.run("ps -eo pid,comm | awk '$2==\"cbmc\"{print $1}' | xargs -r kill -9", shell=True)
+            with open(log, errors='replace') as lf:
+                return rc, lf.read()
+        rc, text = run(cmd, log, timeout)
+        first = parse_output(text)
+        failing = [n for n, r in first.items() if r['status'] == 'failed']
+        cex_text = ''
+        if failing:
+            # second pass, failing harnesses only, single job, to obtain Kani's concrete counterexample
+            cmd2 = base + ['--output-format', 'regular', '-Z', 'concrete-playback', '--concrete-playback=print']
+            for n in failing[:3]:
+                cmd2 += ['--harness', n]
+            _, cex_text = run(cmd2, os.path.join(scratch.ROOT, 'kani_cex.log'), 600)
+    res = first
+    if cex_text:
+        for n, r2 in parse_output(cex_text).items():
+            if n in res and r2.get('cex'):
+                res[n]['cex'] = r2['cex']
+                res[n]['cex_vals'] = r2.get('cex_vals')
     for h in harnesses:
         if h['name'] not in res:
             res[h['name']] = {'status': 'undecided', 'reason': 'harness not run (build error or timeout): ' + text[-800:].replace('\n', ' | ')}
